@@ -19,7 +19,7 @@ ASSUMPTIONS = ["statistical verdicts are 'not rejected at alpha=1e-9 per test' (
                "a product-only sampler reaches 36 of the 720 classes"]
 REQUIRED_SUBS = ["valid.random_clifford_map", "valid.random_pauli_map", "valid.random_clifford_state", "valid.random_pauli_state",
                  "valid.rcc.*", "uniform.n1", "uniform.n2.classes", "uniform.n2.signs", "uniform.n2.coverage", "entangle.n3",
-                 "paulimap.n2", "signs.fair", "resample", "uniform.rows.n3", "uniform.rows.n4", "coin.fair", "coin.positions"]
+                 "paulimap.n2", "signs.fair", "resample", "uniform.rows.n3", "uniform.rows.n4", "coin.fair", "coin.positions", "paulimap.independent"]
 
 
 def shards(tier):
@@ -168,6 +168,28 @@ def run_uniform(shard, rec, B):
     rec.batch("uniform.samples", npm, len(pc), [hash(k) & 0xFFFFFFFFFFFF for k in pc])
     rec.check("paulimap.n2", badp == 0 and len(pc) <= 576 and tail > stats.ALPHA and (npm < 576 * 12 or len(pc) == 576), ["paulimap", npm], True,
               expected="uniform over 24x24 products", observed={"distinct": len(pc), "chi2": stat, "tail": tail, "invalid": badp})
+    # ---- random_pauli_map: the single-qubit factors are independent: 3x3 letter contingency tables of the X-images (and of the
+    #      Z-images) for every pair of sites of random_pauli_map(4), each cell has probability 1/9
+    nind = max(20000, n2 // 4)
+    Np = 4
+    cont = np.zeros((2, Np, Np, 4, 4), dtype=np.int64)
+    for t in range(nind):
+        M = st.random_pauli_map(Np)
+        g, p = B.gsps(M)
+        lx = np.array([O.letters(g[2 * a, 2 * a:2 * a + 2])[0] for a in range(Np)])
+        lz = np.array([O.letters(g[2 * a + 1, 2 * a:2 * a + 2])[0] for a in range(Np)])
+        for a in range(Np):
+            for b in range(a + 1, Np):
+                cont[0, a, b, lx[a], lx[b]] += 1
+                cont[1, a, b, lz[a], lz[b]] += 1
+    rec.batch("uniform.samples", nind, 0, None)
+    for w in (0, 1):
+        for a in range(Np):
+            for b in range(a + 1, Np):
+                cells = cont[w, a, b, 1:, 1:].reshape(-1)
+                stat, dof, tail = stats.chi2_tail(list(cells))
+                rec.check("paulimap.independent", cont[w, a, b, 0].sum() == 0 and cont[w, a, b, :, 0].sum() == 0 and tail > stats.ALPHA,
+                          ["independence", "XZ"[w], a, b, nind], True, expected="uniform 3x3 letter table", observed={"table": cells.tolist(), "tail": tail})
     # ---- N=3: entangling fraction of random_clifford_state(3): qubit 0 entangled with the rest with probability exactly 2/3
     n3 = shard["n3"]
     ent = 0
